@@ -4,9 +4,18 @@ Import ListNotations.
 Require Import MV.C14.Model MV.C14.Spec MV.C14.Proofs MV.C14.ProofsMoves.
 Open Scope N_scope.
 
+(* the two counters are the number of unfreed blocks and the number of elements held in them *)
+Definition fa (x : alloc) : Z := if a_freed x then 0%Z else 1%Z.
+Definition fr (x : arc) : Z := if r_freed x then 0%Z else 1%Z.
+Definition ea (tr : bool) (x : alloc) : Z := if a_freed x then 0%Z else ec tr (len (a_data x)).
+Definition er (tr : bool) (x : arc) : Z := if r_freed x then 0%Z else ec tr (len (r_data x)).
+Definition Cnt (tr : bool) (m : st) : Prop :=
+  nalloc m = (wsum fa (allocs m) + wsum fr (arcs m))%Z /\
+  nelem m = (wsum (ea tr) (allocs m) + wsum (er tr) (arcs m))%Z.
+
 Definition sim (tr : bool) (m : st) (s : sst) (o : op) : Prop :=
   let '(r, m') := step tr m o in let '((r', da, de), s') := sstep tr s o in
-  r = r' /\ (nalloc m' - nalloc m)%Z = da /\ (nelem m' - nelem m)%Z = de /\ Rst m' s'.
+  r = r' /\ (nalloc m' - nalloc m)%Z = da /\ (nelem m' - nelem m)%Z = de /\ (Cnt tr m -> Cnt tr m') /\ Rst m' s'.
 
 Lemma upd_upd {A} (l : list A) i x y : upd (upd l i x) i y = upd l i y.
 Proof. revert i; induction l; intros [|i]; simpl; auto. f_equal. apply IHl. Qed.
@@ -79,7 +88,15 @@ Ltac ev0 := unfold owned_parts; cbn [step sstep fin bind clone_parts owned_parts
                 c_ptr c_len c_cap allocs arcs store nalloc nelem fst snd release sclone sclone_cost
                 a_freed a_cap a_data r_freed r_data r_strong r_caller s_arcs s_store sa_data sa_caller b2z].
 
-Ltac four := split; [try reflexivity | split; [ev0; try lia | split; [ev0; try lia | try assumption]]].
+Ltac cnt :=
+  let HC := fresh "HC" in intros HC; try exact HC; destruct HC as [HCa HCe];
+  try match goal with H : _ = _ \/ _ = _ |- _ => destruct H as [->| ->] end;
+  unfold Cnt; ev0; rewrite ?upd_upd; rewrite ?wsum_app;
+  repeat (erewrite wsum_upd by eassumption);
+  cbn [wsum fa fr ea er a_freed a_data r_freed r_data]; unfold fa, fr, ea, er in *; cbn [a_freed a_data r_freed r_data];
+  repeat match goal with H : r_freed _ = false |- _ => rewrite H end;
+  change (len (@nil N)) with 0 in *; rewrite ?len_app, ?ec_add, ?ec_0; split; lia.
+Ltac four := split; [try reflexivity | split; [ev0; try lia | split; [ev0; try lia | split; [first [solve [cnt] | fail 1 "cnt"] | try assumption]]]].
 
 (* both stores agree on which handles are live *)
 Lemma handle_cases m s h : Rst m s ->
@@ -299,4 +316,111 @@ Proof.
     destruct (N.eqb_spec (r_strong x) 1); four; unfold Rst; ev0; (eapply R_temp; [|exact Hal]).
     + pose proof (R_consume_shared _ _ _ _ h _ _ r x HR E1 E2 Ex) as Q. destruct (N.eqb_spec (r_strong x) 1); [exact Q|contradiction].
     + pose proof (R_consume_shared _ _ _ _ h _ _ r x HR E1 E2 Ex) as Q. destruct (N.eqb_spec (r_strong x) 1); [contradiction|exact Q].
+Qed.
+
+Lemma sim_IntoStdCow tr m s h : Rst m s -> sim tr m s (IntoStdCow h).
+Proof.
+  intros HR. unfold sim. ev0. rewrite get_nth, sget_nth.
+  destruct (handle_cases m s h HR) as [[E1 E2]|(c & d & o & E1 & E2 & Hh)]; rewrite E1, E2.
+  { four. }
+  destruct (hrel_inv _ _ _ _ _ Hh) as (Hd & Hc). destruct o as [|[|]|r]; cbn [std_borrowed snd fst].
+  - subst c. ev0. rewrite kind_borrowed. ev. rewrite kind_borrowed. ev. rewrite read_static. ev. four.
+    unfold Rst; ev. apply (R_consume _ _ _ _ h _ d OB HR E1 E2); reflexivity.
+  - destruct Hc as (a & cap & -> & H0 & H1 & Ea). ev0. rewrite (kind_owned _ _ H0 H1). ev0. rewrite ?(kind_owned _ _ H0 H1). ev0.
+    erewrite read_heap by exact Ea. ev. destruct (N.eqb_spec cap 0); [contradiction|].
+    erewrite free_buf_ok by exact Ea. ev. four. unfold Rst; ev.
+    apply (R_consume_owned _ _ _ _ h _ d a HR E1 E2 eq_refl).
+  - destruct Hc as (-> & ->). ev0. change (kind_of 0 0) with KBorrowed. ev. change (kind_of 0 0) with KBorrowed. ev.
+    rewrite read_dangling. ev. four.
+    unfold Rst; ev. apply (R_consume _ _ _ _ h _ [] (OO false) HR E1 E2); reflexivity.
+  - destruct Hc as (-> & x & Ex & <-). ev0. rewrite kind_shared. ev0. rewrite ?kind_shared. ev0.
+    destruct (arc_live m s h _ r x HR E2 Ex) as (y & Ey & F & S & P & D & C & B).
+    erewrite read_arc by (try exact Ex; exact F). ev0.
+    destruct (temp_vec tr (consume m h) (r_data x)) as (v & al1 & T & K). rewrite T. ev0.
+    erewrite arc_release_ok by (try exact Ex; exact F). ev0.
+    match goal with |- context [read ?m2 v] => destruct (K m2 eq_refl) as (Rd & al3 & Dv & Hal) end.
+    rewrite Rd. ev0. rewrite Dv. ev0. rewrite Ey. unfold sstrong. rewrite <- S.
+    destruct (N.eqb_spec (r_strong x) 1); four; unfold Rst; ev0; (eapply R_temp; [|exact Hal]).
+    + pose proof (R_consume_shared _ _ _ _ h _ _ r x HR E1 E2 Ex) as Q. destruct (N.eqb_spec (r_strong x) 1); [exact Q|contradiction].
+    + pose proof (R_consume_shared _ _ _ _ h _ _ r x HR E1 E2 Ex) as Q. destruct (N.eqb_spec (r_strong x) 1); [contradiction|exact Q].
+Qed.
+
+(* ---- Key::with_extra_labels ---- *)
+Lemma grow_le tr cap need : grow tr cap need <= ISZ.
+Proof. unfold grow. apply N.le_min_l. Qed.
+Lemma grow_pos tr cap need : grow tr cap need <> 0.
+Proof.
+  unfold grow. assert (4 <= N.max (N.max (2 * cap) need) (if tr then 4 else 8)) by (destruct tr; lia).
+  assert (4 <= ISZ) by (vm_compute; discriminate). lia.
+Qed.
+Lemma grow_not_max tr cap need : (grow tr cap need =? MAXU) = false.
+Proof. pose proof (grow_le tr cap need). destruct (N.eqb_spec (grow tr cap need) MAXU); auto. rewrite e in H. vm_compute in H. exfalso; apply H; reflexivity. Qed.
+
+Lemma upd_same {A} (l : list A) i x : nth_error l i = Some x -> upd l i x = l.
+Proof. revert i; induction l; intros [|i] H; simpl in *; try discriminate; auto. - inversion H; auto. - f_equal; auto. Qed.
+
+Definition exact_vec (tr : bool) (m : st) (d : content) (v : cow) (m2 : st) : Prop :=
+  arcs m2 = arcs m /\ store m2 = store m /\ nelem m2 = (nelem m + ec tr (len d))%Z /\
+  ((d = [] /\ v = mkcow PDangling 0 0 /\ allocs m2 = allocs m /\ nalloc m2 = nalloc m) \/
+   (len d <> 0 /\ v = mkcow (PHeap (length (allocs m))) (len d) (len d) /\
+    allocs m2 = allocs m ++ [mkalloc d (len d) false] /\ nalloc m2 = (nalloc m + 1)%Z)).
+
+Lemma to_vec_cases tr m d : exists v m2, to_vec tr m d = (v, m2) /\ exact_vec tr m d v m2.
+Proof.
+  destruct (N.eqb_spec (len d) 0) as [Z|Z].
+  - pose proof (len_0 _ Z); subst d. eexists. eexists. split; [apply to_vec_nil|]. unfold exact_vec, add_elems; simpl. repeat split; auto.
+  - eexists. eexists. split; [apply (to_vec_ok tr m d Z)|]. unfold exact_vec; simpl. repeat split; auto.
+Qed.
+
+(* self.labels.clone().into_owned(): an exact-size Vec of the content, whatever the handle is *)
+Lemma clone_owned tr m s h c d o : Rst m s -> nth h (store m) None = Some c -> nth h (s_store s) None = Some (d, o) ->
+  hrel (allocs m) (arcs m) (Some c) (Some (d, o)) ->
+  exists t s1 v m2, clone_parts tr m c = inr (t, s1) /\ owned_parts tr s1 t = inr (v, m2) /\ exact_vec tr m d v m2.
+Proof.
+  intros HR E1 E2 Hh. destruct (hrel_inv _ _ _ _ _ Hh) as (Hd & Hc). destruct o as [|[|]|r].
+  - subst c. destruct (to_vec_cases tr m d) as (v & m2 & T & X). exists (mkcow (PStatic d) (len d) 0), m, v, m2.
+    unfold clone_parts, owned_parts. cbn [c_len c_cap c_ptr]. rewrite kind_borrowed. rewrite read_static. cbn [bind]. rewrite T. auto.
+  - destruct Hc as (a & cap & -> & H0 & H1 & Ea).
+    destruct (to_vec_cases tr m d) as (t & s1 & T & X). exists t, s1.
+    unfold clone_parts at 1. cbn [c_len c_cap c_ptr]. rewrite (kind_owned _ _ H0 H1). rewrite (read_heap m a d cap Ea). cbn [bind]. rewrite T.
+    destruct X as (Xa & Xs & Xe & [(-> & -> & Xal & Xn)|(Z & -> & Xal & Xn)]).
+    + exists (mkcow PDangling 0 0), (add_elems s1 (ec tr 0)). split; auto. split.
+      { unfold owned_parts. cbn [c_len c_cap c_ptr]. change (kind_of 0 0) with KBorrowed. rewrite read_dangling. cbn [bind]. rewrite to_vec_nil. reflexivity. }
+      unfold exact_vec, add_elems; cbn [arcs store nelem allocs nalloc]. change (len []) with 0 in *. rewrite ec_0 in *. repeat split; auto; try lia.
+    + exists (mkcow (PHeap (length (allocs m))) (len d) (len d)), s1. split; auto. split.
+      { unfold owned_parts. cbn [c_len c_cap c_ptr]. rewrite (kind_owned _ _ Z Hd). reflexivity. }
+      unfold exact_vec. repeat split; auto.
+  - destruct Hc as (-> & ->). destruct (to_vec_cases tr m []) as (v & m2 & T & X). exists (mkcow PDangling 0 0), m, v, m2.
+    unfold clone_parts, owned_parts. cbn [c_len c_cap c_ptr]. change (kind_of 0 0) with KBorrowed. rewrite read_dangling. cbn [bind]. rewrite T. auto.
+  - destruct Hc as (-> & x & Ex & <-).
+    destruct (arc_live m s h _ r x HR E2 Ex) as (y & Ey & F & S & P & D & C & B).
+    set (x1 := mkarc (r_data x) (r_strong x + 1) (r_caller x) false).
+    set (s1 := mkst (allocs m) (upd (arcs m) r x1) (store m) (nalloc m) (nelem m)).
+    assert (Hr : (r < length (arcs m))%nat) by (apply nth_error_Some; congruence).
+    assert (E1x : nth_error (arcs s1) r = Some x1).
+    { unfold s1; cbn [arcs]. rewrite nth_error_upd, Nat.eqb_refl. apply Nat.ltb_lt in Hr. rewrite Hr. reflexivity. }
+    destruct (to_vec_cases tr s1 (r_data x)) as (v & s2 & T & X).
+    destruct X as (Xa & Xs & Xe & Xd).
+    exists (mkcow (PArc r) (len (r_data x)) MAXU), s1, v.
+    exists (mkst (allocs s2) (arcs m) (store s2) (nalloc s2) (nelem s2)).
+    split. { unfold clone_parts. cbn [c_len c_cap c_ptr]. rewrite kind_shared. rewrite (arc_acquire_ok m r x Ex F). reflexivity. }
+    split.
+    { unfold owned_parts. cbn [c_len c_cap c_ptr]. rewrite kind_shared.
+      change (len (r_data x)) with (len (r_data x1)). rewrite (read_arc s1 r x1 E1x eq_refl). cbn [bind]. change (r_data x1) with (r_data x). rewrite T.
+      assert (E2x : nth_error (arcs s2) r = Some x1) by (rewrite Xa; exact E1x).
+      rewrite (arc_release_ok tr s2 r x1 E2x eq_refl). cbn [bind]. unfold x1 at 1 2 3. cbn [r_strong r_data r_caller].
+      destruct (N.eqb_spec (r_strong x + 1) 1); [lia|].
+      rewrite Xa. unfold s1; cbn [arcs]. rewrite upd_upd.
+      replace (mkarc (r_data x) (r_strong x + 1 - 1) (r_caller x) false) with x.
+      2:{ destruct x as [xd xs xc xf]; simpl in *. subst xf. f_equal. lia. }
+      rewrite (upd_same _ _ _ Ex). reflexivity. }
+    unfold exact_vec. cbn [arcs store nelem allocs nalloc]. unfold s1 in *; cbn [arcs store nelem allocs nalloc] in *. repeat split; auto.
+Qed.
+
+Lemma with_extra_nil tr m s h extra : len extra = 0 ->
+  step tr m (WithExtra h extra) = step tr m (Clone h) /\ sstep tr s (WithExtra h extra) = sstep tr s (Clone h).
+Proof.
+  intros H. split; cbn [step sstep].
+  - destruct (get m h); auto. rewrite H. reflexivity.
+  - destruct (sget s h); auto. rewrite H. reflexivity.
 Qed.
